@@ -413,9 +413,3 @@ Example C13_bootstrap_pinned_nonvacuous :
    des 4 [0; 1; 2; 3] [2; 1] 100, des 4 [0; 2; 3] [] 200)%nat
   = (false, true, false, true, false, false).
 Proof. vm_compute. reflexivity. Qed.
-
-(** Source constants.  The literals of the model behind this property are tied to the
-    constants of /repo's Go sources (Gen/Params.v, regenerated from the working tree on
-    every run) in Proofs/TiesDeploy.v; requiring that file here makes the obligations of this
-    property fail when a constant it depends on is edited in the source. *)
-Require Verif.Proofs.TiesDeploy.
